@@ -97,6 +97,13 @@ func (x *Exec) evalClauseInFrame(st *State, fr *Frame, c *Clause, lp *Loop) (*Te
 		// a loop inside an inlined callee: old(...) is not meaningful there
 		env.old = st
 	}
+	if c.Kind == "decreases" {
+		t, err := env.evalTerm(c.Expr)
+		if err == nil && (t == nil || t.Sort != "Int") {
+			return nil, fmt.Errorf("a decreases clause needs an integer expression")
+		}
+		return t, err
+	}
 	return env.evalBool(c.Expr)
 }
 
